@@ -143,6 +143,7 @@ UNITS = {
             I(RAW, r'^impl < T > RawIterRange < T >$', 'new', impl='RawIterRange<T>', key='RawIterRange::new'),
             I(RAW, r'^impl < T > RawIterRange < T >$', 'split', impl='RawIterRange<T>', key='RawIterRange::split'),
             I(RAW, r'^impl < T > RawIterRange < T >$', 'next_impl', impl='RawIterRange<T>', key='RawIterRange::next_impl'),
+            I(RAW, r'^impl < T > RawIterRange < T >$', 'fold_impl', impl='RawIterRange<T>', key='RawIterRange::fold_impl'),
             I(RAW, r'^impl < T > Iterator for RawIter < T >$', 'next', impl='RawIter<T>', key='RawIter::next'),
         ],
     ),
@@ -365,26 +366,60 @@ def iter_rules(toks, i, out, hit):
        R15a  `* const u8` (a parameter / field type)  -> `usize`
        R15b  `P.add(E)` with P a plain path            -> `ptr_add(P, E)`   (in-bounds obligation)
        R15c  `.cast()`                                   -> dropped (the pointee type is not part of the view)
-       R16   by-value `mut self` parameter (not in the dialect): `(mut self` -> `(self`, the body starts with
-             `let mut self_ = self;` and every later `self` of that function is renamed `self_`"""
+       R16   by-value `mut` parameters (not in the dialect): `mut self` -> `self`, the body starts with
+             `let mut self_ = self;` and every later `self` of that function is renamed `self_`;
+             `mut x: T` -> `x: T` and the body starts with `let mut x = x;`
+       R17   the fold closure: `mut f: F` -> `f: &mut F`, bound `FnMut(B, Bucket<T>) -> B` -> trait `FoldFn<B, T>`
+             (prelude: one method `call` that logs the bucket it is given), call `f(a, b)` -> `f.call(a, b)`"""
     t = toks[i]
     n = len(toks)
-    if t.kind == 'id' and t.text == 'fn':
-        _FLAGS['mutself'] = 0
-    if t.kind == 'id' and t.text == 'mut' and out and out[-1].text == '(' and i + 1 < n and toks[i + 1].text == 'self' \
-            and len(out) >= 3 and out[-3].text == 'fn':
-        _FLAGS['mutself'] = 1
-        out.append(extract.T('self', ''))
-        hit('R16_mut_self_param_rebound')
-        return i + 2
-    if _FLAGS.get('mutself') == 1 and t.text == '{':
-        _FLAGS['mutself'] = 2
+    if t.kind == 'id' and t.text == 'fn' and i + 1 < n and toks[i + 1].kind == 'id':
+        # a function header starts: signature mode until the body's `{`
+        _FLAGS['sig'] = True
+        _FLAGS['mutself'] = False
+        _FLAGS['rebind'] = []
+        _FLAGS['foldfn'] = False
         out.append(t)
-        out.extend([extract.T('let', '\n'), extract.T('mut'), extract.T('self_'), extract.T('='), extract.T('self'), extract.T(';', '')])
         return i + 1
-    if _FLAGS.get('mutself') == 2 and t.kind == 'id' and t.text == 'self':
-        out.append(extract.T('self_', t.gap))
-        return i + 1
+    if _FLAGS.get('sig'):
+        if t.kind == 'id' and t.text == 'mut' and i + 1 < n and toks[i + 1].text == 'self' and out and out[-1].text == '(':
+            _FLAGS['mutself'] = True
+            out.append(extract.T('self', ''))
+            hit('R16_mut_self_param_rebound')
+            return i + 2
+        if t.kind == 'id' and t.text == 'mut' and i + 2 < n and toks[i + 1].kind == 'id' and toks[i + 2].text == ':' and out and out[-1].text in ('(', ','):
+            name = toks[i + 1].text
+            if toks[i + 3].text == 'F' and toks[i + 4].text in (',', ')'):
+                # R17: the by-value closure is taken by mutable reference so that the postcondition can name its final state
+                out.extend([extract.T(name, t.gap), extract.T(':', ''), extract.T('&'), extract.T('mut', ''), extract.T('F')])
+                _FLAGS['foldfn'] = name
+                hit('R17_closure_param_by_mut_ref')
+                return i + 4
+            _FLAGS['rebind'].append(name)
+            out.append(extract.T(name, t.gap))
+            hit('R16_mut_param_rebound')
+            return i + 2
+        if t.kind == 'id' and t.text == 'FnMut' and [x.text for x in toks[i + 1:i + 12]] == ['(', 'B', ',', 'Bucket', '<', 'T', '>', ')', '-', '>', 'B']:
+            out.extend([extract.T('FoldFn', t.gap), extract.T('<', ''), extract.T('B', ''), extract.T(',', ''), extract.T('T'), extract.T('>', '')])
+            hit('R17_FnMut_bound_to_FoldFn_trait')
+            return i + 12
+        if t.text == '{':
+            _FLAGS['sig'] = False
+            out.append(t)
+            if _FLAGS.get('mutself'):
+                out.extend([extract.T('let', '\n'), extract.T('mut'), extract.T('self_'), extract.T('='), extract.T('self'), extract.T(';', '')])
+            for name in _FLAGS.get('rebind') or []:
+                out.extend([extract.T('let', '\n'), extract.T('mut'), extract.T(name), extract.T('='), extract.T(name), extract.T(';', '')])
+            return i + 1
+    else:
+        if _FLAGS.get('mutself') and t.kind == 'id' and t.text == 'self':
+            out.append(extract.T('self_', t.gap))
+            return i + 1
+        fname = _FLAGS.get('foldfn')
+        if fname and t.kind == 'id' and t.text == fname and i + 1 < n and toks[i + 1].text == '(' and not (out and out[-1].text in ('.', 'fn', ':')):
+            out.extend([extract.T(fname, t.gap), extract.T('.', ''), extract.T('call', '')])
+            hit('R17_closure_call_to_trait_call')
+            return i + 1
     if t.text == '*' and i + 2 < n and toks[i + 1].text == 'const' and toks[i + 2].text == 'u8':
         out.append(extract.T('usize', t.gap))
         hit('R15a_ctrl_pointer_type_to_index')
